@@ -137,6 +137,17 @@ CHECKS["C18"] = dict(
     ref="6 (C18)", technique="Coq proof (case analysis in the key order of the modelled semver library) + helper evaluation on near-pair pools",
     note="PARTIAL in breadth: gem and conan helpers have no Coq model yet. semantic_version 2.8.5 is modelled (third party), tied by correspondence. The model follows the code after the fix: commits (successor class, gem ~> lower bound).")
 
+CHECKS["C15"] = dict(
+    text="Theorems over the code-shaped model of the advisory converters (Native/Advisory.v) with every comparator table transcribed from /repo on each run: a finite check per table "
+         "(re-proved by computation: each spelling is first matched by an entry that strips all of it and carries its value - the fact that depends on dict order and on lstrip's "
+         "character-set semantics, and that exposed the rpm '<>' and pypi '===' orderings) lifted by a general lemma to: for every version text that starts with a non-comparator "
+         "character and any inserted whitespace, the splitter returns the stated comparator and the version text; the GitHub converter maps a comma-separated list of clauses to exactly "
+         "the stated constraints. On the implementation, generated expressions of the GitHub, three Snyk and GitLab notations for every scheme they accept (all spellings, spacing, "
+         "list/string input, '||', brackets, detached comparators) must equal the range of the stated pairs and the range parsed from the equivalent vers text; the models of all "
+         "converters are compared with the implementation on a generic scheme, malformed expressions included.",
+    ref="6 (C15)", technique="Coq proof (finite table facts by computation, lifted to all version texts by a splitter lemma) + generated-expression evaluation and model correspondence",
+    note="Whole-expression theorems exist for GitHub; Snyk and GitLab expressions are modelled and checked by correspondence and direct evaluation (the clause-level splitter theorem covers their tables). Assumes C11 of the scheme.")
+
 PENDING = {}
 
 
